@@ -22,7 +22,7 @@ def C19():
     chk.assume("a scalar type offering a superset of vt::Arch's operations accepts every program vt::Arch accepts "
                "(the library has no SFINAE on scalar capabilities; checked: enable_if only tests is_operator_v / "
                "is_spline_v)")
-    names = ["arch_on", "arch_off"]
+    names = ["arch_on", "arch_off", "iter_arch"]
     units = r_arch.positive_witness(chk, names)
     r_arch.negative_controls(chk)
     if len(units) == len(names):
@@ -202,7 +202,9 @@ def _expr_ownership(chk, fwd=False):
     _ro.expression_members(chk, units)
     _ro.returned_references(chk, units)
     _ro.api_returns(chk, units)
-    need = ["R-OWN.field", "R-LIFE.ret", "R-API.ret"]
+    _ro.api_params(chk, units)
+    _ro.borrowed_shared(chk, units)
+    need = ["R-OWN.field", "R-LIFE.ret", "R-API.ret", "R-API.param", "R-OWN.borrow"]
     if fwd:
         n = _rg.forwarding(chk, units)
         chk.floor("R-GRD.fwd", n, 4, "member operators of compound operators")
@@ -827,6 +829,8 @@ def C14():
     r_own.interface_shape(chk, units)
     r_own.commit_last(chk, units)
     r_own.api_returns(chk, units)
+    r_own.api_params(chk, units)
+    r_own.borrowed_shared(chk, units + [F.load("cases_off")])
     r_own.returned_references(chk, units)
     r_grd.run(chk, units)
     nsmall = 4 if C.tier() == "thorough" else 3
@@ -842,7 +846,7 @@ def C14():
     chk.floor("R-OWN.field", chk.rules["R-OWN.field"]["instances"], 10, "data members")
     from . import controls
     controls.require(chk, ['R-OWN.mutable', 'R-OWN.cast', 'R-OWN.field', 'R-OWN.iface', 'R-OWN.commit', 'R-GRD.a',
-                            'R-API.ret', 'R-LIFE.ret'])
+                            'R-API.ret', 'R-LIFE.ret', 'R-API.param', 'R-OWN.borrow'])
     return chk
 
 
@@ -871,10 +875,13 @@ def C18():
     r_own.const_correctness(chk, units)
     r_own.field_types(chk, units)
     r_own.call_closure(chk, units)
+    r_own.borrowed_shared(chk, units)   # shared_ptr<const X> members are shared IMMUTABLE state only if they own it
+    r_own.api_params(chk, units)        # const-reference parameters (user callables, operands) are only read
     chk.floor("R-EFF.static", chk.rules["R-EFF.static"]["instances"], 1, "static-duration variables")
     chk.floor("R-OWN.mutable", chk.rules["R-OWN.mutable"]["instances"], 10, "data members")
     from . import controls
-    controls.require(chk, ['R-EFF.static', 'R-EFF.closure', 'R-OWN.mutable', 'R-OWN.cast', 'R-OWN.field'])
+    controls.require(chk, ['R-EFF.static', 'R-EFF.closure', 'R-OWN.mutable', 'R-OWN.cast', 'R-OWN.field', 'R-OWN.borrow',
+                           'R-API.param'])
     return chk
 
 
